@@ -345,10 +345,8 @@ class Evaluator:
             for t in targets:
                 if isinstance(t, ast.Name):
                     env[t.id] = v
-                elif isinstance(t, (ast.Tuple, ast.List)) and v.items is not None and len(v.items) == len(t.elts) and \
-                        all(isinstance(e, ast.Name) for e in t.elts):
-                    for e, x in zip(t.elts, v.items):
-                        env[e.id] = x
+                elif isinstance(t, (ast.Tuple, ast.List)):
+                    self.bind_target(t, v, env)
                 elif isinstance(t, ast.Subscript) and isinstance(t.value, ast.Name) and t.value.id in env and \
                         env[t.value.id].kind == 'dict' and env[t.value.id].items is not None:
                     cur_ = env[t.value.id]
@@ -517,19 +515,12 @@ class Evaluator:
         if isinstance(st, ast.ClassDef) and not st.bases and not st.keywords and not st.decorator_list:
             env[st.name] = AV('other', val=('localclass', st.name, st))
             return
-        if isinstance(st, ast.For) and (isinstance(st.target, ast.Name) or (isinstance(st.target, (ast.Tuple, ast.List)) and
-                                                                         all(isinstance(e, ast.Name) for e in st.target.elts))):
+        if isinstance(st, ast.For):
             it = self.ordered(self.ev(st.iter, env))
             if it.kind not in ('list', 'tuple', 'set') or it.items is None:
                 raise Unknown('loop over a collection of unknown contents')
             for x in it.items:
-                if isinstance(st.target, ast.Name):
-                    env[st.target.id] = x
-                else:
-                    if x.items is None or len(x.items) != len(st.target.elts):
-                        raise Unknown('unpacking in a loop target')
-                    for e, y in zip(st.target.elts, x.items):
-                        env[e.id] = y
+                self.bind_target(st.target, x, env)
                 try:
                     self.exec_block(st.body, env)
                 except _Continue:
@@ -629,6 +620,55 @@ class Evaluator:
         if v.kind == 'obj' and isinstance(v.val, tuple) and v.val[2] in self.class_table:
             return cls in self.class_table[v.val[2]]['mro'] or cls == 'object'
         return is_instance(v, cls)
+
+    def bind_target(self, target, value: AV, env):
+        """binds a loop / comprehension / unpacking target: names, nested tuples and lists, one starred name"""
+        if isinstance(target, ast.Name):
+            env[target.id] = value
+            return
+        if isinstance(target, (ast.Tuple, ast.List)):
+            v = self.ordered(value)
+            if v.items is None:
+                raise Unknown('unpacking of a value of unknown contents')
+            elts = target.elts
+            star = [i for i, e in enumerate(elts) if isinstance(e, ast.Starred)]
+            if not star:
+                if len(v.items) != len(elts):
+                    raise AbsRaise('ValueError', f'cannot unpack {len(v.items)} values into {len(elts)} names')
+                for e, x in zip(elts, v.items):
+                    self.bind_target(e, x, env)
+                return
+            if len(star) == 1 and len(v.items) >= len(elts) - 1:
+                i = star[0]
+                tail = len(elts) - i - 1
+                for e, x in zip(elts[:i], v.items[:i]):
+                    self.bind_target(e, x, env)
+                self.bind_target(elts[i].value, AV('list', items=tuple(v.items[i:len(v.items) - tail])), env)
+                for e, x in zip(elts[i + 1:], v.items[len(v.items) - tail:] if tail else ()):
+                    self.bind_target(e, x, env)
+                return
+            raise AbsRaise('ValueError', 'not enough values to unpack')
+        if isinstance(target, (ast.Attribute, ast.Subscript)):
+            self.assign_to(target, value, env)
+            return
+        raise Unknown('binding target')
+
+    def _comp_envs(self, generators, env):
+        """the environments in which the element of a comprehension is evaluated, in order"""
+        def gen(k, e2):
+            if k == len(generators):
+                yield e2
+                return
+            g = generators[k]
+            it = self.ordered(self.ev(g.iter, e2))
+            if it.items is None:
+                raise Unknown('comprehension over a collection of unknown contents')
+            for x in it.items:
+                e3 = dict(e2)
+                self.bind_target(g.target, x, e3)
+                if all(truth(self.ev(c, e3)) for c in g.ifs):
+                    yield from gen(k + 1, e3)
+        yield from gen(0, dict(env))
 
     def _exc_matches(self, exc: str, names) -> bool:
         if names is None or exc in names or 'Exception' in names or 'BaseException' in names:
@@ -1214,24 +1254,11 @@ class Evaluator:
             v_ = self.ev(node.value, env)
             env[node.target.id] = v_
             return v_
-        if isinstance(node, ast.DictComp) and len(node.generators) == 1:
-            g_ = node.generators[0]
-            it_ = self.ordered(self.ev(g_.iter, env))
-            if it_.items is None:
-                raise Unknown('dict comprehension over unknown contents')
-            out_ = []
-            for x_ in it_.items:
-                e2 = dict(env)
-                if isinstance(g_.target, ast.Name):
-                    e2[g_.target.id] = x_
-                elif isinstance(g_.target, ast.Tuple) and x_.items is not None and len(x_.items) == len(g_.target.elts):
-                    for t_, y_ in zip(g_.target.elts, x_.items):
-                        e2[t_.id] = y_
-                else:
-                    raise Unknown('dict comprehension target')
-                if all(truth(self.ev(c_, e2)) for c_ in g_.ifs):
-                    out_.append(AV('tuple', items=(self.ev(node.key, e2), self.ev(node.value, e2))))
-            return AV('dict', items=tuple(out_))
+        if isinstance(node, ast.DictComp):
+            out_ = AV('dict', items=())
+            for e2 in self._comp_envs(node.generators, env):
+                out_ = self._with_entry(out_, self.ev(node.key, e2), self.ev(node.value, e2))
+            return out_
         if isinstance(node, ast.Dict):
             out_ = AV('dict', items=())
             for k, v in zip(node.keys, node.values):
@@ -1252,28 +1279,7 @@ class Evaluator:
             self._yields[-1].append(self.ev(node.value, env) if node.value is not None else AV('none'))
             return AV('none')
         if isinstance(node, (ast.GeneratorExp, ast.ListComp, ast.SetComp)):
-            out = []
-
-            def gen(k, e2):
-                if k == len(node.generators):
-                    out.append(self.ev(node.elt, e2))
-                    return
-                g = node.generators[k]
-                it = self.ordered(self.ev(g.iter, e2))
-                if it.items is None:
-                    raise Unknown('comprehension over a collection of unknown contents')
-                for x in it.items:
-                    e3 = dict(e2)
-                    if isinstance(g.target, ast.Name):
-                        e3[g.target.id] = x
-                    elif isinstance(g.target, ast.Tuple) and x.items is not None and len(x.items) == len(g.target.elts):
-                        for t_, y in zip(g.target.elts, x.items):
-                            e3[t_.id] = y
-                    else:
-                        raise Unknown('comprehension target')
-                    if all(truth(self.ev(c, e3)) for c in g.ifs):
-                        gen(k + 1, e3)
-            gen(0, dict(env))
+            out = [self.ev(node.elt, e2) for e2 in self._comp_envs(node.generators, env)]
             if isinstance(node, ast.SetComp):
                 return self.make_set(out)
             return AV('list', items=tuple(out))
@@ -2208,6 +2214,9 @@ def evaluator_for(cp, hooks=None, max_depth: int = 8) -> Evaluator:
                  (isinstance(st.value, ast.Call) and ast.unparse(st.value.func) == 're.compile')):
             mc[st.targets[0].id] = st.value            # (anything else, e.g. a sentinel `object()`, stays an opaque named object)
     ev.module_consts = mc
+    for st in cp.module_tree.body:
+        if isinstance(st, ast.FunctionDef):
+            ev.functions.setdefault(st.name, st)
     return ev
 
 
